@@ -472,4 +472,45 @@ def encode (H : Bs → Bs) (v : PyVal) : Bs := encodeV H .fixed v
 /-- The pinned code (frozenset in iteration order). -/
 def encodeOld (H : Bs → Bs) (v : PyVal) : Bs := encodeV H .old v
 
+/-! ## `collections.OrderedDict` (top level)
+
+`pickle` reduces an `OrderedDict` (and every other dict subclass) to
+`save_reduce(cls, (), dictitems=iter(obj.items()))`: GLOBAL, EMPTY_TUPLE, REDUCE, memoize, then
+`self._batch_setitems(dictitems)` — `Hasher._batch_setitems` again, but this time `items` is a ONE-SHOT
+ITERATOR, not a re-iterable view.  Three versions of `Hasher._batch_setitems` differ on it (F40): -/
+
+inductive ItemsVer where
+  /-- the pinned tree: `sorted(items)` consumes the iterator; if it raises `TypeError` the fallback
+  `sorted((hash(k), v) for k, v in items)` finds it exhausted -/
+  | pinned
+  /-- commit aa0f898 (first F6 repair): the pre-scan `any(_holds_frozenset(k) for k, _ in items)` consumes
+  the iterator — wholly when no key holds a frozenset, else up to and including the first key that does -/
+  | regressed
+  /-- `items = list(items)` first: the same as for a plain dict -/
+  | repaired
+deriving Repr, DecidableEq
+
+/-- The items `Pickler._batch_setitems` finally receives from `Hasher._batch_setitems(iterator)`. -/
+def iterItems (H : Bs → Bs) (e : PyVal → Memo → Bs × Memo) (iv : ItemsVer) (items : List (PyVal × PyVal)) :
+    List (PyVal × PyVal) :=
+  match iv with
+  | .repaired => sortOn Prod.fst (itemsOf H .fixed e items)
+  | .pinned => if orderable .old (items.map Prod.fst) then sortOn Prod.fst items else []
+  | .regressed =>
+    match items.dropWhile (fun kv => !holdsFrozenset kv.1) with
+    | [] => []
+    | _ :: rest => sortOn Prod.fst (rest.map fun kv => (topOf H e kv.1, kv.2))
+
+def ODICT : Bs := asciiBytes "collections\nOrderedDict\n"
+
+/-- The whole stream of `Hasher().hash(OrderedDict(items))` (items in insertion order). -/
+def encodeOD (H : Bs → Bs) (iv : ItemsVer) (items : List (PyVal × PyVal)) : Bs :=
+  let ver : Version := match iv with | .pinned => .old | _ => .fixed
+  let e := encF H ver (depthItems items)
+  let m0 := Memo.init
+  let pc := memoize m0   -- the class object
+  let po := memoize pc.2 -- the new object, after REDUCE
+  let r := seqKV e (iterItems H e iv items) po.2
+  frame (GLOBAL :: (ODICT ++ pc.1) ++ EMPTY_TUPLE :: REDUCE :: (po.1 ++ batch SETITEM SETITEMS r.1))
+
 end JoblibModel.HashStream
